@@ -262,7 +262,7 @@ func TestVerifC10Breaker(t *testing.T) {
 		ps.Breaker = &vfC10BreakerSpec{Window: w, Minimum: mn,
 			Threshold: rapid.SampledFrom([]int{100, 100, 50, 51, 34, 67, 75, 1}).Draw(rt, "threshold")}
 		nreq := rapid.IntRange(3, 10).Draw(rt, "nreq")
-		failBias := rapid.SampledFrom([]int{100, 100, 80, 50}).Draw(rt, "failBias")
+		failBias := rapid.SampledFrom([]int{100, 80, 60, 40}).Draw(rt, "failBias")
 
 		env := vfC10NewEnv(rt, ps)
 		defer env.close()
